@@ -128,6 +128,9 @@ fn run_scenario(sc: &Value) {
                                 "delay" => {
                                     SchedulableSuspender::current().expect("task outside a coroutine").delay(Duration::from_millis(4));
                                 }
+                                "long_delay" => {
+                                    SchedulableSuspender::current().expect("task outside a coroutine").delay(Duration::from_millis(40));
+                                }
                                 _ => break,
                             }
                         }
@@ -184,6 +187,15 @@ fn run_scenario(sc: &Value) {
                     }));
                     // let the waiter reach its first check
                     std::thread::sleep(Duration::from_millis(1));
+                }
+            }
+            // the join handle of the task is dropped: JoinHandle::drop calls clean_task_result
+            // (open_coroutine::JoinHandle::try_cancel(self) and any_join drop the handle right after the cancel)
+            "abandon" => {
+                let t = h["t"].as_u64().unwrap();
+                if let Some(id) = ids.get(&t) {
+                    rec(json!({"ev": "abandon", "task": t}));
+                    pool.clean_task_result(*id);
                 }
             }
             "take" => {
